@@ -152,6 +152,20 @@ theorem handle_connection_py_is_model (s : State) :
     (refuses s = false → pyHandle s = .ret () ⟨s.restart, true, s.conn.isSome⟩) :=
   py_handle_refuses s
 
+/-- **The model is the code** (`exabgp.tcp.attempts`, the end of a session): `Peer.can_reconnect` and
+    `Peer._reset`, translated from /repo on this run, compute `canReconnect` and the state part of `resetP` of
+    the model (the connection is closed in every case; the pending teardown is forgotten and the RIB reset
+    exactly when the peer restarts). -/
+theorem can_reconnect_py_is_model (s : State) :
+    Generated.PyPeer.Attempts.can_reconnect ⟨s.cfg.maxAttempts, s.attempts⟩ =
+      .ret (canReconnect s) ⟨s.cfg.maxAttempts, s.attempts⟩ :=
+  py_can_reconnect_eq_model s
+
+theorem reset_py_is_model (restart teardownSet : Bool) :
+    Generated.PyPeer.Reset._reset ⟨restart, teardownSet, false, false⟩ false =
+      .ret () ⟨restart, (if restart then false else teardownSet), true, restart⟩ :=
+  py_reset_eq_model restart teardownSet
+
 /-! ## the hypotheses are satisfiable, the conclusions are not vacuous -/
 
 /-- a whole session: establishment, routes and End-of-RIB in ESTABLISHED, teardown with cease, restart. -/
